@@ -61,6 +61,9 @@ func (ctx *Context) GetErrorText() string {
 }
 
 func (ctx *Context) GetParsedOffset() int {
+	if ctx.parser == nil {
+		return 0
+	}
 	return ctx.parser.pt.offset
 }
 
